@@ -36,7 +36,17 @@ BinKeys == << CT("B", "B"), Put(T1, [h |-> Bin(<<1, 2>>), r |-> Bin(<<3>>), who 
               Put(T1, [h |-> Bin(<<12>>), r |-> Bin(<<3>>), who |-> Num(3)]),
               Get(T1, [h |-> Bin(<<1, 2>>), r |-> Bin(<<3>>)]), Get(T1, [h |-> Bin(<<1>>), r |-> Bin(<<2, 3>>)]), Get(T1, [h |-> Bin(<<12>>), r |-> Bin(<<3>>)]),
               ScanOp("c1", T1, NoIndex, NoFilter, <<>>, <<>>) >>
-Traces == { NumOrder, NumIdentity, BinOrder, BigKeys, BinKeys }
+\* a number partition key is matched BY VALUE in a key condition, however the numeral of the request is written (the stored
+\* keys are canonical here, so the known deviation about differently written STORED keys stays out of the way)
+N7 == Num(7)
+NumQuery == << CT("N", "S"), Put(T1, [h |-> N7, r |-> S1(49), who |-> Num(1)]), Put(T1, [h |-> N7, r |-> S1(50), who |-> Num(2)]),
+               Put(T1, [h |-> Num(70), r |-> S1(49), who |-> Num(3)]),
+               Q(Nm(FALSE, <<7,0>>, -1, <<55,46,48>>), TRUE), Q(Nm(FALSE, <<0,7>>, 0, <<48,55>>), FALSE), Q(Nm(FALSE, <<7>>, 0, <<55,101,48>>), TRUE),
+               Q(Nm(FALSE, <<7>>, 0, <<48,46,55,101,49>>), TRUE), Q(Nm(FALSE, <<7,0,0>>, -1, <<55,48,46,48>>), TRUE), Q(N7, TRUE),
+               QR(Nm(FALSE, <<7,0>>, -1, <<55,46,48>>), ">", S1(49)),
+               QueryOp("c1", T1, NoIndex, HK, [some |-> TRUE, ast |-> Cmp("=", Path("who"), Val(":w"))], <<>>,
+                       [n \in {":h", ":w"} |-> IF n = ":h" THEN Nm(FALSE, <<7,0>>, -1, <<55,46,48>>) ELSE Num(2)], TRUE) >>
+Traces == { NumOrder, NumIdentity, BinOrder, BigKeys, BinKeys, NumQuery }
 ASSUME \A t \in Traces : PrintT(ToJson([kind |-> "trace", ops |-> t]))
 SetupDef == <<>>
 MenuDef == <<>>
